@@ -1,5 +1,6 @@
 """C19 - line transports: real LinesTransportMixin (tcp-lines / unix-lines) over an in-memory StreamReader and the
-real TCPUDSServerTransport.handle_client, against Model/Lines.lean (the oracle)."""
+real TCPUDSServerTransport.handle_client, against Model/Lines.lean (the oracle) and Model/LinesExec.lean (whole executions:
+client operation sequences, server loop with end reasons, both directions composed)."""
 import asyncio
 
 from common import hx, setup_repo_import
@@ -11,8 +12,26 @@ PROOF = "Gallia.Proofs.C19"
 DRIVER = "c19"
 ORACLE = True
 ASSUMPTIONS = [
-    "asyncio.StreamReader.readline consumes nothing until it can return and returns the unterminated tail at EOF",
-    "malformed-line stream restricted to ASCII bytes (str.strip() on non-ASCII whitespace is outside the model)",
+    "asyncio.StreamReader.readline consumes nothing until it can return and returns the unterminated tail at EOF; "
+    "wait_for cancels the pending readline without consuming anything (checked on every run by the operation-sequence scripts)",
+    "the StreamReader is modelled without its line-length limit: neither side passes a `limit` (regenerated from the AST, "
+    "obligation code_facts_agree), the asyncio default (65536) covers every message up to 32767 bytes (limits_cover_property_range); "
+    "longer lines (ValueError from readline, buffer cleared) are outside the model",
+    "client side: str.strip() on non-ASCII whitespace after the UTF-8 decode (NBSP, U+2028 ...) is outside the model; the server "
+    "decodes strictly as ASCII and is modelled on all bytes",
+    "feed after end-of-stream cannot happen on a real stream (feed_data asserts) and is ignored by the model; a write on a closed "
+    "StreamWriter is outside the model (scripts never write after close)",
+    "request() = write; read is modelled sequentially; that the transport mutex makes the pair atomic among concurrent users is "
+    "C05's subject - here only: the mutex is free again after every request, also a timed-out one",
+    "the handler behind the server loop is a parameter of the theorems (answer / no answer / raise); the tie runs the real "
+    "UDSServerTransport.handle_request over a scripted respond() and over a real RandomUDSServer; handle_request's 10 s inactivity "
+    "reset is not exercised",
+    "empty messages are outside the property (lengths 1..4095): an empty request line reaches handle_request(b\"\"), which raises "
+    "(IndexError on pdu[0] in respond), and thereby ends the server loop - modelled (server_empty_line_ends) and tied, not a finding",
+    "after the loop has ended handle_client logs sum(response_times) / len(response_times): ZeroDivisionError for a connection on "
+    "which no request was handled; outside the property (the loop has ended), counted in the evidence notes",
+    "kernel TCP / unix-socket segmentation and flow control are represented by feed_data chunking and in-memory pipes with seeded "
+    "piece sizes and virtual delays",
 ]
 
 
@@ -547,7 +566,7 @@ def _run_client_sequences(ctx, variants):
     every position"""
     chunks = [b"3", b"e", b"\n", b"10\n2", b"2\r\n3E\n", b"zz\n"]
     syms = [("feed", c) for c in chunks] + [("read", 0.25), ("eof",)]
-    L = ctx.pick(4, 5)
+    L = ctx.pick(5, 6)
     seqs = [[]]
     frontier = [[]]
     for _ in range(L):
@@ -570,7 +589,7 @@ def _run_client_sequences(ctx, variants):
     # write / request / close mixed in: exhaustive over a second alphabet, shorter
     syms2 = [("feed", b"3e0"), ("feed", b"0\n"), ("feed", b"1001\n7f\n"), ("read", 0.25), ("write", b"\x3e\x00"),
              ("request", b"\x10\x01", 0.25), ("close",), ("eof",)]
-    L2 = ctx.pick(3, 4)
+    L2 = ctx.pick(4, 5)
     frontier = [[]]
     seqs2 = []
     for _ in range(L2):
@@ -1127,16 +1146,39 @@ def _run_exchange(ctx, _srv, variants):
 
 
 MANIFEST = {
-    "level_text": ("Lean 4 theorems over the line-framing oracle (hex text + newline): content round trip for all byte "
-                   "strings, segmentation independence for every chunking (generic Framing.feed_chunks), one message per "
-                   "read, a blocked read consumes nothing at every prefix of a line, end-of-stream never yields a message, "
-                   "server loop answers coalesced requests in order. Tied to the code by a correspondence run of the real "
-                   "LinesTransportMixin (tcp-lines, unix-lines) and TCPUDSServerTransport.handle_client over in-memory "
-                   "streams: every split point and EOF offset of short bursts exhaustively, seeded multi-splits, 4095-byte "
-                   "messages, malformed lines."),
-    "level_note": ("Trusted: Lean kernel (axioms propext, Quot.sound, Classical.choice), asyncio.StreamReader.readline "
-                   "contract, binascii, the harness; kernel TCP segmentation is represented by feed_data chunking; "
-                   "non-ASCII whitespace handling of str.strip() is outside the model."),
-    "technique": "Lean 4 proof (induction, generic framing lemma) + differential correspondence against the real transports",
+    "level_text": ("Lean 4 theorems (34, kernel-checked, standard axioms only) over (a) the line-framing oracle (hex text + newline): content "
+                   "round trip for all byte strings, segmentation independence for every chunking, one message per read, a blocked "
+                   "read consumes nothing at every prefix of a line, end-of-stream never yields a message; (b) the CLIENT as a whole "
+                   "execution (Model/LinesExec: cstep / crun over feed / eof / read / write / request / close): client_trace_spec - for "
+                   "every operation sequence the result of every read is the decoding of the next not yet delivered line of the stream "
+                   "delivered so far, pending exactly when none is complete and the stream is open, eos exactly when it has ended "
+                   "(read_pending_iff, read_eos_iff), in order and each once (client_reads_in_order, client_drained, "
+                   "client_delivers_messages), a timed-out read anywhere in any execution changes nothing "
+                   "(timed_out_read_consumes_nothing); write emits exactly hex + newline for every length (write_emits_exactly, "
+                   "enc_length), request = write; read; (c) the SERVER loop handle_client around a handler that answers / stays silent / "
+                   "raises: one reply line per answered request, none for an unanswered one, in order, for any decodable spelling "
+                   "(server_replies_in_order), what ends the loop and that nothing after it is served (server_loop_ends, "
+                   "server_empty_line_ends, server_dead_after_end), segmentation independence (server_any_segmentation); (d) both "
+                   "composed: client_server_exchange (any segmentation in both directions: the reads return exactly the server's "
+                   "replies, one per read, in order, then timeouts) and client_server_exchange_any_schedule. Code facts regenerated "
+                   "from the AST on every run with obligations (code_facts_agree, limits_cover_property_range): write has no size "
+                   "guard, no stream limit is passed on either side, request_unsafe = write; read under the mutex in request, the "
+                   "shape of the server loop. Tied by a correspondence run of the real TCPLinesTransport / UnixLinesTransport (made by "
+                   "their own connect()) and the real TCPUDSServerTransport / UnixUDSServerTransport (started by their own run()) with "
+                   "the real UDSServerTransport.handle_request: every client operation sequence up to length 5 (6 thorough) over a chunk "
+                   "alphabet with split hex digits, split newline, several lines per chunk, CRLF, undecodable line, read and eof at "
+                   "every position; sequences with write / request / close; messages of 1, 2, 4094, 4095, 4096, 20000 bytes and every "
+                   "first byte value; the server loop chunk by chunk with its end reason and unread bytes; real client <-> real server "
+                   "loop over in-memory pipes with seeded segmentation and delays in both directions, pipelined and lock-step, against "
+                   "the model's exchange and against a real RandomUDSServer's recorded replies."),
+    "level_note": ("Trusted: Lean kernel (axioms propext, Quot.sound, Classical.choice), asyncio.StreamReader.readline / wait_for "
+                   "contract, binascii, the AST translators, the harness; the reader is modelled without its 64 KiB line limit "
+                   "(obligation: no limit is passed, the default covers the property's range); kernel segmentation is represented by "
+                   "feed_data chunking and in-memory pipes; non-ASCII whitespace handling of str.strip() on the client is outside the "
+                   "model; the transport mutex is only checked to be free after each request (atomicity is C05); disagreements on "
+                   "messages longer than 4095 bytes or on close() are reported as a broken tie, not as a violation of the property."),
+    "technique": ("Lean 4 proof (refinement of the buffer machine to the delivered-stream specification, induction over operation "
+                  "sequences, generic framing lemma, well-founded server loop) + tables regenerated from the AST with proof obligations "
+                  "+ differential correspondence against the real transports and server loops"),
     "design_ref": "DESIGN.md section 7, C19",
 }
